@@ -73,7 +73,7 @@ def ascii_impl(state, string) -> bytes:
         else:
             try:
                 result += get_as_str(state, state["insn"].name.name + " operand", state["insn"], chunk).encode(state["compiler"].output_charset)
-            except UnicodeEncodeError as ex:
+            except UnicodeError as ex:
                 reports.error(
                     "invalid-character",
                     (state["insn"].ctx_start, state["insn"].ctx_end, f"Cannot encode this string using the selected output charset:\n{ex}\nYou can change the charset using --charset CLI argument or '.charset' directive.")
@@ -311,7 +311,7 @@ def make_raw(state, raw_file_path: str=None) -> bytes:
 def encode_bk_filename(state, bk_filename):
     try:
         return bk_filename.encode(state["compiler"].output_charset)
-    except UnicodeEncodeError as ex:
+    except UnicodeError as ex:
         reports.error(
             "invalid-character",
             (state["insn"].ctx_start, state["insn"].ctx_end, f"Cannot encode the BK filename '{bk_filename}' using the selected output charset:\n{ex}\nYou can change the charset using --charset CLI argument.")
